@@ -139,6 +139,15 @@ impl Spec {
     }
 }
 
+/// only the std-HashMap entry points of the four ProbMinHash variants (every instance of the input map has its own RandomState,
+/// hence its own iteration order)
+pub fn hashmap_spec_strategy(max_m: usize, max_n: usize) -> impl Strategy<Value = Spec> {
+    (variant_strategy(), hasher_strategy(), weighted_set(2, max_n.min(200), true)).prop_flat_map(move |(variant, hasher, items)| {
+        let pos = crate::pmh::entries(variant).iter().position(|e| *e == crate::pmh::Entry::HashMap).unwrap_or(0) as u8;
+        crate::gen::m_strategy(min_m(variant), max_m).prop_map(move |m| Spec::Pmh { variant, hasher, m, items: items.clone(), entry: pos })
+    })
+}
+
 pub fn spec_strategy(max_m: usize, max_n: usize) -> impl Strategy<Value = Spec> {
     let pmh = (variant_strategy(), hasher_strategy(), weighted_set(1, max_n.min(120), true), any::<u8>())
         .prop_flat_map(move |(variant, hasher, items, entry)| crate::gen::m_strategy(min_m(variant), max_m).prop_map(move |m| Spec::Pmh { variant, hasher, m, items: items.clone(), entry }));
